@@ -100,10 +100,15 @@ def world_files(world):
             "home_nosub/sdf.yaml": "n: 4\n",  # names no sub-command although one is required
             "home_none/.keep": "",
         }
+    if world == "dcl":
+        return {
+            "c_part.yaml": "c:\n  d:\n    b: 4\nod:\n  a: 3\n",
+            "c_bad.yaml": "c:\n  d:\n    a: five\n",
+        }
     raise KeyError(world)
 
 
-WORLDS = ["sub", "cls", "link", "dcf", "sdf"]
+WORLDS = ["sub", "cls", "link", "dcf", "sdf", "dcl"]
 
 
 def build_world(world, J):
@@ -205,6 +210,24 @@ def build_world(world, J):
         sc.add_subcommand("a", A)
         sc.add_subcommand("b", B)
         return {"P": P, "S": A}
+    if world == "dcl":
+        # dataclass-like values INSIDE type hints: Optional[Pt] / Optional[Nest] parameters of a class group (these
+        # actions carry the non-empty sub_add_kwargs of the signature machinery), a plain dataclass parameter (nested
+        # group c.e), and top-level Optional[Pt] / List[Pt] / Dict[str, Pt] options
+        import importlib
+
+        lib = importlib.import_module(LIB)
+        P = AP(exit_on_error=False, prog="app", env_prefix="APP")
+        P.add_argument("--cfg", action=CF)
+        P.add_class_arguments(lib.DcUser, "c")
+        P.add_argument("--od", type=Optional[lib.Pt], default=None)
+        P.add_argument("--ld", type=List[lib.Pt], default=[])
+        P.add_argument("--dd", type=Dict[str, lib.Pt], default={})
+        Q = AP(prog="tool", env_prefix="TOOL")
+        Q.add_argument("--cfg", action=CF)
+        Q.add_class_arguments(lib.DcUser, "c")
+        Q.add_argument("--od", type=Optional[lib.Nest], default=None)
+        return {"P": P, "Q": Q}
     raise KeyError(world)
 
 
@@ -212,7 +235,7 @@ def build_world(world, J):
 # operations
 
 
-def _op(on, m, a=None, label="ok", kw=None, env=None):
+def _op(on, m, a=None, label="ok", kw=None, env=None, shape=None):
     op = {"on": on, "m": m, "label": label}
     if a is not None:
         op["a"] = a
@@ -220,6 +243,8 @@ def _op(on, m, a=None, label="ok", kw=None, env=None):
         op["kw"] = kw
     if env:
         op["env"] = env
+    if shape:
+        op["shape"] = shape  # the name of this call's class in deviation signatures (default: on.m[label])
     return op
 
 
@@ -242,15 +267,16 @@ def alphabet(world, which):
             _op("P", "parse_args", ["--print_config", "--n=bad", "a"], "print_config+error"),
             _op("P", "parse_args", ["a", "--print_config", "--x=bad"], "sub-print_config+error"),
             _op("P", "parse_object", cfg_ok),
-            _op("P", "parse_object", {"n": "bad"}, "error:type"),
             _op("P", "parse_string", "n: 6\nsubcommand: a\n"),
-            _op("P", "parse_env", {"APP_N": "8", "APP_SUBCOMMAND": "b", "APP_B__SUBCOMMAND": "d"}, "ok:nested-subcommand"),
             _op("P", "get_defaults"),
             _op("P", "dump", cfg_ok),
             _op("S", "parse_args", ["--print_config"], "print_config"),
             _op("Q", "parse_args", ["--print_config", "--n=bad"], "print_config+error"),
         ]
         more += [
+            # the next two were core operations until world dcl was added (moved to keep the quick tier in budget)
+            _op("P", "parse_object", {"n": "bad"}, "error:type"),
+            _op("P", "parse_env", {"APP_N": "8", "APP_SUBCOMMAND": "b", "APP_B__SUBCOMMAND": "d"}, "ok:nested-subcommand"),
             _op("P", "parse_args", [], "error:no-subcommand"),
             _op("P", "parse_args", ["--zzz", "a"], "error:unrecognized"),
             _op("P", "parse_args", ["--cfg=p_ok.yaml", "a"], "ok:config-file"),
@@ -265,7 +291,7 @@ def alphabet(world, which):
             _op("P", "parse_object", {"subcommand": "b", "b": {"y": "t", "subcommand": "d"}}, "ok:nested-subcommand"),
             _op("P", "parse_string", "n: [", "error:yaml"),
             _op("P", "parse_string", "subcommand: b\nb:\n  y: u\n  subcommand: c\n", "ok:no-defaults", {"defaults": False}),
-            _op("P", "dump", cfg_ok, "error:skip_default-with-subcommands", {"skip_default": True}),
+            _op("P", "dump", cfg_ok, "ok:skip_default-with-subcommands", {"skip_default": True}),
             _op("P", "dump", cfg_bad, "error:type"),
             _op("P", "validate", cfg_bad, "error:type"),
             _op("P", "instantiate", {"n": 1, "flag": False, "a": {"x": 5}, "b": {"y": "q"}}, "ok:implicit-subcommand"),
@@ -304,17 +330,18 @@ def alphabet(world, which):
             _op("P", "parse_args", ["--cb.help=Sub"], "class-help:callable-type"),
             _op("P", "parse_args", ["--print_config", f"--model={LIB}.Unrelated"], "print_config+error"),
             _op("P", "parse_args", [f"--model={LIB}.Other", "--cfg=m_bad.yaml"], "error:config-file-after-class"),
-            _op("P", "parse_object", {"model": {"init_args": {"a": 2}}}, "ok:init_args-only"),
             _op("P", "parse_string", "model:\n  init_args:\n    a: 3\n", "ok:init_args-only"),
             _op("P", "parse_object", {"model": {"class_path": f"{LIB}.Other"}}, "ok:no-defaults", {"defaults": False}),
             _op("P", "get_defaults"),
             _op("P", "dump", cfg_ok),
             _op("P", "instantiate", cfg_ok),
             _op("Q", "parse_args", [f"--model={LIB}.Sub", "--model.b=z"], "ok:class+nested-arg"),
-            _op("Q", "parse_string", "model:\n  init_args:\n    a: 3\n", "ok:init_args-only"),
             _op("R", "parse_args", [], "error:invalid-parser-default"),
         ]
         more += [
+            # the next two were core operations until world dcl was added (moved to keep the quick tier in budget)
+            _op("P", "parse_object", {"model": {"init_args": {"a": 2}}}, "ok:init_args-only"),
+            _op("Q", "parse_string", "model:\n  init_args:\n    a: 3\n", "ok:init_args-only"),
             _op("P", "parse_args", ["--model.help"], "class-help:base"),
             _op("P", "parse_args", [f"--model.help={LIB}.Unrelated"], "error:class-help-not-a-subclass"),
             _op("P", "parse_args", ["--model.help=Sub", "--model.b=1"], "error:class-help+extra-arg"),
@@ -447,6 +474,69 @@ def alphabet(world, which):
             _op("S", "parse_args", ["--x=5"]),
             _op("S", "parse_args", [], "error:bad-default-config-file", None, bad_home),
         ]
+    elif world == "dcl":
+        # "dataclass-param" = the call hands the parser a non-null value for a signature parameter whose type hint
+        # CONTAINS a dataclass (c.d: Optional[Pt], c.n: Optional[Nest]) - full, PARTIAL (defaults fill the rest) or
+        # dotted; such calls are one class of call whatever the method, so they carry an explicit signature shape
+        # `<parser>.<parse*|dump|validate|instantiate>[dataclass-param]` (see signature()); the label still says which
+        # variant it is.  "dataclass-group" = the plain dataclass parameter c.e (nested group); "dataclass-option" =
+        # the top-level --od / --ld / --dd.
+        def dc(on, m, a, label, kw=None, env=None):
+            fam = "parse*" if m.startswith("parse") else m
+            return _op(on, m, a, label, kw, env, shape=f"{on}.{fam}[dataclass-param]")
+
+        cfg_ok = {
+            "c": {"d": {"a": 5, "b": 7}, "e": {"a": 3, "b": 4}, "n": {"k": 1, "inner": {"a": 2, "b": 3}}},
+            "od": {"a": 1, "b": 2},
+            "ld": [{"a": 5, "b": 2}],
+            "dd": {"__dict__": {"k": {"a": 1, "b": 1}}},
+        }
+        cfg_part = {"c": {"d": {"a": 5}, "e": {"a": 3, "b": 4}, "n": None}, "od": {"b": 2}, "ld": [], "dd": {"__dict__": {}}}
+        cfg_bad = {"c": {"d": {"a": [1], "b": 7}, "e": {"a": 3, "b": 4}, "n": None}, "od": None, "ld": [], "dd": {"__dict__": {}}}
+        core += [
+            dc("P", "parse_args", ['--c.d={"a": 5, "b": 7}'], "ok:full"),
+            dc("P", "parse_args", ['--c.d={"a": 6}'], "ok:partial"),
+            dc("P", "parse_args", ["--c.d.b=8"], "ok:dotted"),
+            _op("P", "parse_args", ["--c.d=null", '--od={"b": 8}'], "ok:dataclass-param-null+dataclass-option"),
+            dc("P", "parse_args", ['--c.d={"a": 5, "zz": 7}'], "error:unknown-field"),
+            dc("P", "parse_args", ["--print_config", '--c.n={"inner": {"b": 6}}'], "print_config:nested-partial"),
+            dc("P", "parse_string", "c:\n  d:\n    b: 9\nod:\n  b: 9\nld:\n- a: 4\n", "ok:partial"),
+            dc("P", "parse_object", {"c": {"n": {"k": 5, "inner": {"a": 8, "b": 9}}}, "od": {"a": 8, "b": 9}}, "ok:nested-full"),
+            _op("P", "get_defaults"),
+            dc("P", "dump", cfg_ok, "ok"),
+        ]
+        more += [
+            _op("P", "parse_args", []),
+            dc("P", "parse_args", ['--c.n={"k": 5, "inner": {"a": 8, "b": 9}}'], "ok:nested-full"),
+            dc("P", "parse_args", ["--c.n.inner.a=4"], "ok:nested-dotted"),
+            _op("P", "parse_args", ['--c.e={"b": 9}', "--c.e.a=9"], "ok:dataclass-group"),
+            _op("P", "parse_args", ['--od={"a": 5, "b": 7}', "--od.b=6"], "ok:dataclass-option"),
+            _op("P", "parse_args", ['--od={"a": "x"}'], "error:dataclass-option-field-type"),
+            _op("P", "parse_args", ['--ld=[{"a": 5, "b": 7}, {"b": 3}]', '--ld+={"a": 6}'], "ok:dataclass-list+append"),
+            _op("P", "parse_args", ['--dd={"k": {"a": 5, "b": 7}}', '--dd.j={"a": 1, "b": 1}'], "ok:dataclass-dict+key"),
+            dc("P", "parse_args", ["--cfg=c_part.yaml"], "ok:config-file"),
+            dc("P", "parse_args", ['--c.d={"a": 5, "b": 7}', "--cfg=c_bad.yaml"], "error:config-file-after-value"),
+            _op("P", "parse_args", ["--help"], "help"),
+            dc("P", "parse_object", {"c": {"d": {"a": 6}}}, "ok:partial"),
+            dc("P", "parse_object", {"c": {"d": {"b": 4}}}, "ok:no-defaults", {"defaults": False}),
+            dc("P", "dump", cfg_ok, "ok:skip_default", {"skip_default": True}),
+            dc("P", "validate", cfg_ok, "ok"),
+            dc("P", "validate", cfg_bad, "error:type"),
+            dc("P", "instantiate", cfg_part, "ok:partial"),
+            dc("Q", "parse_args", ['--c.d={"b": 3}'], "ok:partial"),
+            dc("Q", "parse_args", ['--c.d={"a": 5, "b": 7}', '--od={"k": 2, "inner": {"a": 4}}'], "ok:full"),
+            dc("Q", "parse_args", ["--print_config", "--c.d.a=bad"], "print_config+error"),
+            dc("Q", "parse_string", "c:\n  d:\n    a: 4\n", "ok:partial"),
+        ]
+        extra += [
+            _op("P", "parse_args", ["--print_config"], "print_config"),
+            _op("P", "parse_args", ["--od=null", "--c.n=null"], "ok:dataclass-param-null+dataclass-option-null"),
+            dc("P", "parse_env", {"APP_C__D": '{"a": 2}', "APP_OD": '{"b": 4}'}, "ok:partial"),
+            dc("P", "dump", cfg_part, "ok:partial"),
+            dc("P", "instantiate", cfg_ok, "ok"),
+            _op("Q", "get_defaults"),
+            dc("Q", "instantiate", {"c": {"d": {"a": 5}, "e": {"a": 3, "b": 4}, "n": None}, "od": {"k": 1, "inner": {"a": 2, "b": 3}}}, "ok:partial"),
+        ]
     else:
         raise KeyError(world)
     return {"core": core, "full": core + more, "all": core + more + extra}[which]
@@ -566,7 +656,7 @@ def op_family(op):
 
 def signature(history, op, gold, got):
     """Shape of a deviation: which earlier calls (1-minimal history) make which kind of call answer differently."""
-    before = ", ".join(f"{h['on']}.{h['m']}[{h['label']}]" for h in history) or "(nothing)"
+    before = ", ".join(h.get("shape") or f"{h['on']}.{h['m']}[{h['label']}]" for h in history) or "(nothing)"
     return f"after {before}: {op['on']}.{op_family(op)} answers differently"
 
 
@@ -587,7 +677,7 @@ def prewarm():
     import linecache
 
     for name in ("yaml", "shtab", "argcomplete", "docstring_parser", "typeshed_client", "_jsonnet", "attrs", "attr",
-                 "platform", "unicodedata", "shlex", "glob", "fnmatch", LIB):
+                 "platform", "unicodedata", "shlex", "glob", "fnmatch", "reconplogger", LIB):
         try:
             importlib.import_module(name)
         except ImportError:
@@ -751,6 +841,7 @@ def minimise(task):
     """Pool worker: 1-minimal sub-history that still makes `op` answer differently from the golden observation
     (greedy removal, every candidate replayed in a fresh forked child)."""
     hist = list(task["history"])
+    kept = list(range(len(hist)))  # positions of the original history that are still in `hist`
     gold = task["gold"]
 
     def deviates(h):
@@ -759,7 +850,7 @@ def minimise(task):
 
     got = deviates(hist)
     if got is None:
-        return task["key"], None, None
+        return task["key"], None, None, None
     changed = True
     while changed:
         changed = False
@@ -768,8 +859,9 @@ def minimise(task):
             g = deviates(cand)
             if g is not None:
                 hist, got, changed = cand, g, True
+                kept = kept[:i] + kept[i + 1 :]
                 break
-    return task["key"], hist, got
+    return task["key"], hist, got, kept
 
 
 # =================================================================================================
@@ -932,37 +1024,67 @@ def explore_world(seed, pool, root, world, which, max_depth, state_cap, xcheck_b
         x_transitions += len(alt) + len(out["results"])
 
     # ---- deviations: minimise, then report
+    # Deviating transitions are grouped by (operation, deviating observation).  The smallest history of every group
+    # is 1-minimised first.  Another transition of the group whose history CONTAINS (as a subsequence) a minimal
+    # history already established for the group is explained by it - that minimal history was executed and gave this
+    # very observation - and is counted under its signature without a run of its own; the others are minimised
+    # themselves (a different polluting call gives a different signature).
     groups = {}
     for hist, i, obs in sorted(deviating, key=lambda d: (len(d[0]), d[0], d[1])):
         groups.setdefault((i, _h(obs)), []).append((hist, i, obs))
     reps = [g[0] for g in groups.values()]
     rest = [d for g in groups.values() for d in g[1:]]
-    todo = (reps + rest)[:400]
-    classification_note = None
-    if len(reps) + len(rest) > len(todo):
-        classification_note = (
-            f"{len(reps) + len(rest) - len(todo)} deviating transitions were counted under the signature of a minimised "
-            "transition with the same operation and the same observation, without separate minimisation"
-        )
-    m_tasks = [
-        {"root": root, "world": world, "key": n, "history": [ops[j] for j in hist], "op": ops[i], "gold": gold_obs[i]}
-        for n, (hist, i, obs) in enumerate(todo)
-    ]
-    sig_of_group = {}
-    for n, mh, got in run_tasks(minimise, m_tasks):
-        hist, i, obs = todo[n]
-        if mh is None:
-            raise HarnessError(f"{world}: deviation of {ops[i]} after {hist} does not reproduce in isolation")
-        if not mh:
-            raise HarnessError(f"{world}: operation {ops[i]} deviates from its golden observation after an EMPTY history")
-        sig = signature(mh, ops[i], gold_obs[i], got)
-        sig_of_group.setdefault((i, _h(obs)), (sig, mh, got))
-        found.append((sig, {"world": world, "history": mh, "op": ops[i]}, _detail(gold_obs[i], got)))
-    for hist, i, obs in (reps + rest)[len(todo):]:
-        known = sig_of_group.get((i, _h(obs)))
-        if known:
-            sig, mh, got = known
+    budget = 400
+    established = {}  # (op index, observation hash) -> [(minimal history as op indices, signature, observation)]
+    minimised_runs = 0
+
+    def is_subsequence(small, big):
+        it = iter(big)
+        return all(x in it for x in small)
+
+    def run_minimise(batch):
+        nonlocal minimised_runs
+        m_tasks = [
+            {"root": root, "world": world, "key": n, "history": [ops[j] for j in hist], "op": ops[i], "gold": gold_obs[i]}
+            for n, (hist, i, obs) in enumerate(batch)
+        ]
+        minimised_runs += len(m_tasks)
+        for n, mh, got, kept in run_tasks(minimise, m_tasks):
+            hist, i, obs = batch[n]
+            if mh is None:
+                raise HarnessError(f"{world}: deviation of {ops[i]} after {hist} does not reproduce in isolation")
+            if not mh:
+                raise HarnessError(f"{world}: operation {ops[i]} deviates from its golden observation after an EMPTY history")
+            sig = signature(mh, ops[i], gold_obs[i], got)
+            if _h(got) == _h(obs):
+                established.setdefault((i, _h(obs)), []).append(([hist[k] for k in kept], sig, got))
             found.append((sig, {"world": world, "history": mh, "op": ops[i]}, _detail(gold_obs[i], got)))
+
+    run_minimise(reps[:budget])
+    pending = []
+    unclassified = 0
+    for hist, i, obs in reps[budget:] + rest:
+        known = [e for e in established.get((i, _h(obs)), []) if is_subsequence(e[0], hist)]
+        if known:
+            mh_idx, sig, got = min(known, key=lambda e: (len(e[0]), e[0]))  # independent of scheduling
+            found.append((sig, {"world": world, "history": [ops[j] for j in mh_idx], "op": ops[i]}, _detail(gold_obs[i], got)))
+        elif minimised_runs + len(pending) < budget:
+            pending.append((hist, i, obs))
+        elif established.get((i, _h(obs))):
+            # beyond the budget: counted under the signature established for the same operation and observation
+            mh_idx, sig, got = min(established[(i, _h(obs))], key=lambda e: (len(e[0]), e[0]))
+            found.append((sig, {"world": world, "history": [ops[j] for j in mh_idx], "op": ops[i]}, _detail(gold_obs[i], got)))
+            unclassified += 1
+        else:
+            unclassified += 1
+    run_minimise(pending)
+    classification_note = None
+    if unclassified:
+        classification_note = (
+            f"{unclassified} deviating transitions beyond the minimisation budget of {budget} runs were counted under "
+            "the signature of a minimised transition with the same operation and the same observation (if there is "
+            "one), without separate minimisation"
+        )
 
     return {
         "world": world,
